@@ -99,4 +99,26 @@ theorem histOkB_iff : ∀ (ops : List WOp) (sv : Server), histOkB sv ops = true 
     | modify ns p chg => simp [reqOkB, modifyOkB_iff]
     | delete ns p => simp [reqOkB]
 
+/-- every stored reference end can be fetched: no host, an existing namespace, an existing instance
+    (what CreateInstance / ModifyInstance check for the ends they store; DeleteInstance of a referenced
+    instance breaks it: finding C13-KF1) -/
+def EndsExist (sv : Server) : Prop :=
+  ∀ S ∈ sv.repo, ∀ a ∈ S.insts, ∀ v ∈ ends a, endOk sv v = true
+
+theorem fetchEnd_of_endOk {sv : Server} {v : Path} (h : endOk sv v = true) : ∃ i, fetchEnd sv v = .ok i := by
+  unfold endOk at h
+  unfold fetchEnd endStore
+  cases hn : v.ns with
+  | none => simp [hn] at h
+  | some n =>
+    simp only [hn] at h ⊢
+    cases hT : findNs sv.repo n with
+    | none => simp [hT] at h
+    | some T =>
+      simp only [hT] at h ⊢
+      unfold getInstance
+      cases hf : findInst T.insts v with
+      | none => simp [hf] at h
+      | some i => exact ⟨_, rfl⟩
+
 end C13
